@@ -84,6 +84,82 @@ def trailing_label_finding(case, o, issue):
     return extra > 0 and (issue["got"] >= issue["want"] + extra or (issue["got"] < 0 and "proxy" in issue["msg"]))
 
 
+SIG_PATCH_RET = "return-edges-of-a-ret-inserted-by-a-patch-are-copied-from-the-function"
+SIG_CALLEE_DELETED = "call-retargeted-by-whole-block-deletion-keeps-old-return-edges"
+SIG_SELF_CALL_DELETED = "wholly-deleted-block-called-its-own-function-return-edges-stay"
+
+
+def runs_off_end(case):
+    """C03 is about modules whose CFG matches their code.  A request that removes the
+    terminator (jmp/ret) of a block which is not followed by code leaves code that runs off
+    into data or the end of the section: nothing the rewriter could connect it to."""
+    text = case["text"]
+    for e in case.get("edits", []):
+        d = text[e["block"]]
+        if d["kind"] != "code":
+            continue
+        size = emodify.block_size(d)
+        nxt = e["block"] + 1
+        follows_code = nxt < len(text) and text[nxt]["kind"] == "code"
+        if follows_code:
+            continue
+        if e["op"] == "insert":
+            # code appended behind the last block's terminator that itself runs off the end
+            lines = [l.strip() for l in e["asm"].splitlines() if l.strip() and not l.strip().endswith(":") and not l.strip().startswith(".")]
+            last = lines[-1].split()[0] if lines else ""
+            if e["off"] == size and last not in ("jmp", "ret"):
+                return True
+        elif e["off"] + e["len"] == size and d["insns"][-1][0] in ("jmp", "ret"):
+            return True
+    return False
+
+
+def _func_of(dump, b):
+    for f, bs in dump["aux"]["funcBlocks"]:
+        if b in bs:
+            return f
+    return None
+
+
+def c03_known(case, o, issue):
+    """recognise the recorded C03 findings (all about return edges) on the input"""
+    if not issue["kind"].startswith("return"):
+        return None
+    text = case["text"]
+    label_func = {y["name"]: d.get("func") for d in text if d["kind"] == "code" for y in d["syms"]}
+    # (1) a patch containing a return is inserted into a function: its return edges are copied from
+    #     the function's other returns as they are at that moment (none: a proxy; stale when the
+    #     same batch adds, removes or moves calls of that function)
+    for e in case.get("edits", []):
+        d = text[e["block"]]
+        if d["kind"] == "code" and d.get("func") is not None and any(
+                l.strip() == "ret" for l in e.get("asm", "").splitlines()):
+            return SIG_PATCH_RET
+    # (2) a call targets a label of a block that is wholly deleted: the call edge slides to the next
+    #     block (or the proxy), the return edges of the old and the new callee's function are not updated
+    whole = {e["block"] for e in case.get("edits", [])
+             if e["op"] == "delete" and e["off"] == 0 and e["len"] == emodify.block_size(text[e["block"]])}
+    names = {y["name"] for b in whole for y in text[b]["syms"]}
+    calls = [i[1] for d in text if d["kind"] == "code" for i in d["insns"] if i[0] == "call"]
+    for e in case.get("edits", []):
+        for line in e.get("asm", "").splitlines():
+            t = line.split()
+            if len(t) == 2 and t[0] == "call":
+                calls.append(t[1])
+    if names & set(calls):
+        return SIG_CALLEE_DELETED
+    # (3) a wholly deleted block ended in a call of its own function
+    for e in case.get("edits", []):
+        d = text[e["block"]]
+        if d["kind"] != "code" or d.get("func") is None:
+            continue
+        last = d["insns"][-1]
+        own_call = last[0] == "call" and label_func.get(last[1]) == d["func"]
+        if own_call and e["op"] == "delete" and e["off"] == 0 and e["len"] == emodify.block_size(d):
+            return SIG_SELF_CALL_DELETED
+    return None
+
+
 class Campaign:
     def __init__(self, ctx, facet, with_corr=True):
         self.ctx = ctx
@@ -127,8 +203,19 @@ class Campaign:
             ctx.mismatch("the recorded insert/delete calls cannot be paired with the registered requests", case)
             return
         ctx.count("applied")
-        reqs = [{"op": "listing_check", "before": o["before"], "after": o["after"], "edits": o["edits"],
-                 "nop": emodify.nop_bytes(case)}]
+        if self.facet == "C03":
+            if runs_off_end(case):
+                ctx.count("out-of-domain:code-runs-off-the-end")
+                return
+            reqs = [{"op": "cfg_check", "ir": o["after"], "insns": emodify.decode_insns(o["after"]), "nop": emodify.nop_bytes(case),
+                     "old_proxies": o["before"]["proxies"],
+                     "proxy_deletion": any(e.get("proxy") for e in case.get("edits", []))}]
+            # the same rules applied to the input: C03 quantifies over consistent inputs
+            reqs.append({"op": "cfg_check", "ir": o["before"], "insns": emodify.decode_insns(o["before"]),
+                         "nop": emodify.nop_bytes(case), "old_proxies": o["before"]["proxies"], "proxy_deletion": False})
+        else:
+            reqs = [{"op": "listing_check", "before": o["before"], "after": o["after"], "edits": o["edits"],
+                     "nop": emodify.nop_bytes(case)}]
         # the offset bookkeeping of _apply_modifications, block by block
         self.seq = []
         for blk in sorted({e["block"] for e in o["edits"]}):
@@ -148,6 +235,17 @@ class Campaign:
         if sum(len(p[3]) for p in self.pending) >= 400:
             self.flush()
 
+    def input_ok(self, case, o):
+        """C03 quantifies over modules whose input CFG is consistent with their code: check the
+        builder's output with the same specification first."""
+        a = ask_driver([{"op": "cfg_check", "ir": o["before"], "insns": emodify.decode_insns(o["before"]), "nop": emodify.nop_bytes(case),
+                         "old_proxies": o["before"]["proxies"], "proxy_deletion": False}])[0]
+        if a.get("C03"):
+            self.ctx.count("input-inconsistent")
+            self.ctx.notes.append("generated input CFG is not consistent with its code: %s" % a["C03"][0]["msg"])
+            return False
+        return True
+
     # -- compare ------------------------------------------------------------
     def flush(self):
         ctx = self.ctx
@@ -164,8 +262,17 @@ class Campaign:
         k = 0
         for case, o, recs, reqs, seq in self.pending:
             a = ans[k]
-            seqans = ans[k + 1:k + 1 + len(seq)]
-            mine = ans[k + 1 + len(seq):k + len(reqs)]
+            extra = 0
+            if self.facet == "C03":
+                extra = 1
+                pre = ans[k + 1]
+                if pre.get("C03"):
+                    ctx.count("input-inconsistent")
+                    ctx.notes.append("generated input CFG is not consistent with its code: %s" % pre["C03"][0]["msg"])
+                    k += len(reqs)
+                    continue
+            seqans = ans[k + 1 + extra:k + 1 + extra + len(seq)]
+            mine = ans[k + 1 + extra + len(seq):k + len(reqs)]
             k += len(reqs)
             for edits, sa in zip(seq, seqans):
                 ctx.count("corr:offsets")
@@ -188,6 +295,10 @@ class Campaign:
                     sig = "C02:" + SIG_TRAILING_LABEL
                 if self.facet == "C02" and issue["kind"] == "end-label-on-proxy":
                     sig = "C02:" + SIG_END_LABEL_PROXY
+                if self.facet == "C03":
+                    k3 = c03_known(case, o, issue)
+                    if k3:
+                        sig = "C03:" + k3
                 ctx.count("issue:" + issue["kind"])
                 ctx.violation(sig, issue["msg"], case)
             for r, m in zip(recs, mine):
